@@ -98,9 +98,14 @@ func replayDump(R *Result, in dumpInput, beh []dumpStep, bi int) error {
 		}
 	}
 	var holdCh chan struct{} // non-nil: the next commit keeps its transaction open until the channel is closed
+	var holdStarted chan struct{}
 	commit := func() error {
 		return inst.Env.Update(func(txn *lmdb.Txn) error {
 			if h := holdCh; h != nil {
+				if hs := holdStarted; hs != nil {
+					close(hs) // the write lock is held
+					holdStarted = nil
+				}
 				defer func() { <-h }()
 			}
 			cur := rawContent{}
@@ -197,7 +202,7 @@ func replayDump(R *Result, in dumpInput, beh []dumpStep, bi int) error {
 	var tBeforeHeldCommit uint64
 	var heldTxn int64
 	started := false
-	passed := 0                // entry gates passed in the running dump
+	passed := 0              // entry gates passed in the running dump
 	splitInside := bi%2 == 1 // application commits land between two entries instead of between two DBIs
 
 	nextGate := func() (string, bool) {
@@ -232,13 +237,14 @@ func replayDump(R *Result, in dumpInput, beh []dumpStep, bi int) error {
 			counter++
 			holdCh = make(chan struct{})
 			heldDone = make(chan error, 1)
-			started := make(chan struct{})
-			go func() {
-				close(started)
-				heldDone <- commit()
-			}()
-			<-started
-			time.Sleep(5 * time.Millisecond)
+			hs := make(chan struct{})
+			holdStarted = hs
+			go func() { heldDone <- commit() }()
+			select {
+			case <-hs:
+			case <-time.After(10 * time.Second):
+				return fmt.Errorf("held application transaction did not start")
+			}
 		case "app":
 			if a.Held {
 				if a.Toggle { // content of a held transaction is fixed when it was opened; the toggle is ignored
